@@ -527,4 +527,8 @@ def main(tier, seed):
         for spec, kw, msg in bad_h[:2]:
             rep.violation("standin.harness-fault-injection", {"native_result": msg, "structure": spec, "fault": kw,
                                                               "script": REPLAY_NATIVE.format(seed=seed)}, found_input=bool(bad_nat))
+    # level-2 evaluation for all path lengths and pixel counts (checks/l2sym.py): every position and orientation path restored (length and every entry) on every normal path
+    from checks import l2sym
+
+    l2sym.report_fails(rep, l2sym.run(rep, tier, fams=['C', 'E'], stride={'C': 2}))
     return rep.finish()
